@@ -292,8 +292,12 @@ def cache_width(s):
 
 
 def GI(s):
-    """0 <= cursor offset <= length of the edit text; a cached translation is the layout of the text shown now."""
-    in_range = both(0 <= s._edit_pos, s._edit_pos <= tlen(s._edit_text))
+    """0 <= cursor offset <= length of the edit text; a cached translation is the layout of the text shown now; a
+    preferred column remembered for a width is a column (or 'left' / 'right'), not None -- set_edit_pos and every editing
+    operation forget both together, move_cursor_to_coords remembers both together."""
+    pref, then = s.pref_col_maxcol
+    in_range = both(0 <= s._edit_pos, s._edit_pos <= tlen(s._edit_text),
+                    implies(neg(opt_isnone(then)) if then is not None else False, neg(V.struct_eq(pref, None)) if pref is not None else False))
     c = cached(s)
     if c is False:
         return in_range
@@ -624,18 +628,23 @@ class Shifted:
         return LRef(with_line_shifted(self.lay, self.cell.y, self.shift))
 
 
+def cursor_cell(old, maxcol):
+    """(callee views) the record of the cursor's cell in L(old, maxcol).  calc_coords is a function of its arguments (it
+    reads nothing else), so two look-ups of the same position in the same layout on one path are ONE record."""
+    lay = Lay(old, maxcol)
+    known = cur().ghost.setdefault("cursor_cells", {})
+    key = (_seq(lay).uf_key.get_id(), V._z(cursor_index(old)).get_id())
+    if key not in known:
+        known[key] = (CellOf.some(shown(old), lay, cursor_index(old), "cursor"), lay, cursor_index(old))  # (terms kept alive)
+    return known[key][0]
+
+
 def view_of(old, maxcol):
     """(callee views) None when the view does not follow the cursor (forks), else a Shifted with a fresh cursor cell."""
     if not bool(old._shift_view_to_cursor):
         return None
     lay = Lay(old, maxcol)
-    # calc_coords is a function of its arguments (it reads nothing else): two look-ups of the same position in the same
-    # layout on one path are ONE record
-    known = cur().ghost.setdefault("cursor_cells", {})
-    key = (_seq(lay).uf_key.get_id(), V._z(cursor_index(old)).get_id())
-    if key not in known:
-        known[key] = (CellOf.some(shown(old), lay, cursor_index(old), "cursor"), lay)
-    v = Shifted(lay, known[key][0], maxcol)
+    v = Shifted(lay, cursor_cell(old, maxcol), maxcol)
     cur().ghost.setdefault("views", []).append(v)
     return v
 
@@ -823,14 +832,20 @@ class Cursor:
 
 
 def cursor_of(old, maxcol):
-    """(callee views) the record of get_cursor_coords((maxcol,))"""
+    """(callee views) the record of get_cursor_coords((maxcol,)).  Its answer is a function of the text shown, the layout,
+    the cursor offset and the width (the computation reads nothing else: it sets the view flag itself), so two calls in
+    such a state on one path are ONE record."""
     st = cur()
-    c = CellOf.some(shown(old), Lay(old, maxcol), cursor_index(old), "cursor")
-    r = Cursor(c, maxcol, (ite(c.held, clamp_into(c.x, maxcol), st.fresh_int("cx")), ite(c.held, c.y, st.fresh_int("cy"))))
-    for _l, f in r.facts():
-        st.assume(f)
-    st.ghost.setdefault("cursors", []).append(r)
-    return r
+    c = cursor_cell(old, maxcol)
+    known = st.ghost.setdefault("cursor_records", {})
+    key = (id(c), V._z(maxcol).get_id())
+    if key not in known:
+        r = Cursor(c, maxcol, (ite(c.held, clamp_into(c.x, maxcol), st.fresh_int("cx")), ite(c.held, c.y, st.fresh_int("cy"))))
+        for _l, f in r.facts():
+            st.assume(f)
+        known[key] = (r, maxcol)
+    st.ghost.setdefault("cursors", []).append(known[key][0])
+    return known[key][0]
 
 
 def _cursor_clauses(old, maxcol, loc, result):
@@ -1032,6 +1047,9 @@ class get_pref_col:
         if not bool(both(neg(opt_isnone(then)), val(then) == a.size[0])):
             _cache_effects(old, s, a.size[0])
             s.fields["_shift_view_to_cursor"] = True
+        else:
+            for k in CACHE + ("_shift_view_to_cursor",):
+                s.fields[k] = old.fields[k]
 
 
 # ------------------------------------------------------------------------------------------------ calc_line_pos / calc_pos with their witness
@@ -1295,8 +1313,8 @@ class Moved:
          i.e. minus the view shift when y is the cursor's (shifted) line -- (LinePos); when that line has a position at
          all the new cursor offset is that position minus the caption, clamped into the edit text."""
 
-    def __init__(self, view, top, y, line, new_pos):
-        self.view, self.top, self.y, self.line, self.new_pos = view, top, y, line, new_pos
+    def __init__(self, view, top, y, line, new_pos, x=None):
+        self.view, self.top, self.y, self.line, self.new_pos, self.x = view, top, y, line, new_pos, x
 
     @property
     def accepted(self):
@@ -1312,10 +1330,11 @@ def new_offset(s, line):
 def moved(old, maxcol, x, y):
     """(callee views; forks on accepted / refused) the record of move_cursor_to_coords((maxcol,), x, y)"""
     st = cur()
+    x = st.force(x)    # (a remembered preferred column: an int, 'left' or 'right')
     lay = Lay(old, maxcol)
     view = view_of(old, maxcol)
     top = CellOf.some(shown(old), lay, caption_index(old), "top")
-    m = Moved(view, top, y, None, None)
+    m = Moved(view, top, y, None, None, x)
     if bool(m.accepted):
         m.line = LinePos(shown(old), row_of(lay, y), in_layout_columns(view, x, y), Opt(Int).fresh(st, "line_pos"), st.fresh_int("pos_seg"), st.fresh_bool("pos_found"), known=True)
         play().add_fact(lambda y2, j2, m=m: m.line.none_at(j2))
@@ -1328,6 +1347,8 @@ def moved(old, maxcol, x, y):
 
 def _moved_effects(old, s, m, x, maxcol):
     if m.line is None:
+        for k in ("_edit_pos", "highlight", "pref_col_maxcol"):
+            s.fields[k] = old.fields[k]
         _cache_effects(old, s, maxcol)
         return
     s.fields["_edit_pos"] = m.new_pos
@@ -1340,44 +1361,51 @@ def _moved_effects(old, s, m, x, maxcol):
 _MC_OV = {TL + "calc_pos": calc_pos_w, ED + "Edit.set_edit_pos": set_edit_pos_geo}
 
 
-def _mc_clauses(old, s, maxcol, x, y, result):
-    """(proof goals) the Moved record of a call that went through get_line_translation, position_coords(maxcol, 0) and --
-    when accepted -- calc_pos on what is displayed."""
-    st = cur()
+def moved_clauses(old, s, maxcol, x, y, result, m):
+    """(proof goals) the clauses of a Moved record `m` (witnesses taken from the callee records) for a call on state
+    `old` that left state `s` and returned `result`."""
     lay = Lay(old, maxcol)
-    views, locs, rps = st.ghost.get("views", []), st.ghost.get("located", []), st.ghost.get("row_pos", [])
-    follows = bool(old._shift_view_to_cursor)
-    ok = len(locs) == 1 and len(views) == (2 if follows else 0) and eq(locs[0].cell.pos, caption_index(old)) is not False
-    yield "translation-asked-once-first-line-of-the-edit-text-looked-up-once", both(ok, eq(locs[0].cell.pos, caption_index(old)) if ok else False)
-    if not ok:
-        return
-    view = views[0] if follows else None     # the one behind `trans`
-    if follows:
-        c = view.cell
+    if m.view is not None:
+        c = m.view.cell
         for label, f in CellOf(shown(old), lay, cursor_index(old), c.x, c.y, c.wj, c.held).clauses():
             yield "cursor-cell/" + label, f
-    t0 = locs[0].cell
+    t0 = m.top
     top = CellOf(shown(old), lay, caption_index(old), t0.x, t0.y, t0.wj, t0.held)
     for label, f in top.clauses():
         yield "first-line-of-the-edit-text/" + label, f
-    m = Moved(view, top, y, None, None)
-    if not bool(m.accepted):
-        yield "line-above-the-edit-text-or-below-the-last-line/refused", both(result is False, len(rps) == 0)
+    if m.line is None:
+        yield "line-above-the-edit-text-or-below-the-last-line/refused", both(neg(Moved(m.view, top, y, None, None).accepted), result is False)
         yield "line-above-the-edit-text-or-below-the-last-line/nothing-changed", both(editor_same(old, s), flag_same(old, s), count_ev(s.trace, "_invalidate") == 0)
         yield "line-above-the-edit-text-or-below-the-last-line/layout-cached", layout_cached(old, s, maxcol)
         return
-    yield "line-of-the-edit-text/accepted-position-looked-up-once-on-that-line", both(result is True, len(rps) == 1, (both(rps[0].row == y) if rps else False))
-    if len(rps) != 1:
-        return
-    rl = rps[0].line
-    line = LinePos(shown(old), row_of(lay, y), in_layout_columns(view, x, y), rl.p, from_displayed(view, y, rl.k)[1], rl.found)
+    yield "line-of-the-edit-text/accepted", both(Moved(m.view, top, y, None, None).accepted, result is True)
+    line = LinePos(shown(old), row_of(lay, y), in_layout_columns(m.view, x, y), m.line.p, m.line.k, m.line.found)
     for label, f in line.clauses():
         yield "line-of-the-edit-text/position-on-that-line-for-the-column-in-the-layout/" + label, f
-    yield "line-of-the-edit-text/cursor-on-the-position-of-that-line-minus-the-caption-clamped-into-the-edit-text", implies(neg(opt_isnone(rl.p)), s._edit_pos == new_offset(old, line))
+    yield "line-of-the-edit-text/cursor-on-the-position-of-that-line-minus-the-caption-clamped-into-the-edit-text", implies(neg(opt_isnone(line.p)), s._edit_pos == new_offset(old, line))
     yield "line-of-the-edit-text/column-remembered-for-this-width", both(pref_is(s.pref_col_maxcol[0], x), eq(s.pref_col_maxcol[1], maxcol))
     yield "line-of-the-edit-text/selection-forgotten", opt_isnone(s.highlight) if s.highlight is not None else True
     yield "line-of-the-edit-text/cached-layout-dropped-canvas-cache-told", both(nothing_cached(s), count_ev(s.trace, "_invalidate") >= 1)
     yield "line-of-the-edit-text/text-untouched", both(content_same(old, s), flag_same(old, s))
+
+
+def _mc_clauses(old, s, maxcol, x, y, result):
+    """(proof goals) the Moved record of a call that went through get_line_translation, position_coords(maxcol, 0) and --
+    when the line is one of the edit text -- calc_pos on what is displayed."""
+    st = cur()
+    views, locs, rps = st.ghost.get("views", []), st.ghost.get("located", []), st.ghost.get("row_pos", [])
+    follows = bool(old._shift_view_to_cursor)
+    ok = len(locs) == 1 and len(views) == (2 if follows else 0) and len(rps) <= 1
+    yield "translation-asked-once-first-line-of-the-edit-text-looked-up-once", both(ok, eq(locs[0].cell.pos, caption_index(old)) if ok else False)
+    if not ok:
+        return
+    view = views[0] if follows else None     # the one behind `trans`
+    line = None
+    if rps:
+        yield "position-looked-up-on-the-line-asked-for", rps[0].row == y
+        rl = rps[0].line
+        line = LinePos(rl.text, rl.line, rl.pref, rl.p, from_displayed(view, y, rl.k)[1], rl.found)
+    yield from moved_clauses(old, s, maxcol, x, y, result, Moved(view, locs[0].cell, y, line, None))
 
 
 @contract(ED + "Edit.move_cursor_to_coords", property=("C10", "C09"), contract_overrides=_MC_OV,
@@ -1389,7 +1417,7 @@ class move_cursor_to_coords:
     modifies = CACHE + ("_edit_pos", "highlight", "pref_col_maxcol")
 
     def requires(s, a):
-        return a.size[0] >= 1
+        return both(a.size[0] >= 1, neg(V.struct_eq(a.x, None)))
 
     def ensures(old, s, a, result):
         yield from _mc_clauses(old, s, a.size[0], a.x, a.y, result)
@@ -1401,3 +1429,127 @@ class move_cursor_to_coords:
 
     def effects(old, s, a, result):
         _moved_effects(old, s, cur().ghost["moves"][-1], a.x, a.size[0])
+
+
+# ------------------------------------------------------------------------------------------------ Edit.mouse_event
+
+PROTOCOLS.setdefault("Key", type("KeyProtocol", (Protocol,), {"kind": "Key", "methods": {}})())
+
+
+@contract(ED + "Edit.mouse_event", property=("C10", "C09"), **GEOKW)
+class mouse_event:
+    params = dict(size=Tup(Int), event=Opaque("Key"), button=Int, col=Int, row=Int, focus=Bool)
+    result = Bool
+    raises = ()
+    modifies = CACHE + ("_edit_pos", "highlight", "pref_col_maxcol")
+
+    def requires(s, a):
+        return a.size[0] >= 1
+
+    def ensures(old, s, a, result):
+        moves = cur().ghost.get("moves", [])
+        if bool(a.button == 1):
+            yield "button-1/cursor-moved-to-the-cell-once", len(moves) == 1
+            if len(moves) == 1:
+                for label, f in moved_clauses(old, s, a.size[0], a.col, a.row, result, moves[0]):
+                    yield "button-1/" + label, f
+        else:
+            yield "other-button/ignored", both(result is False, len(moves) == 0, editor_same(old, s), flag_same(old, s), opt_eq(s._cache_maxcol, old._cache_maxcol), count_ev(s.trace, "_invalidate") == 0)
+
+    def pure_spec(old, a):
+        if bool(a.button == 1):
+            return moved(old, a.size[0], a.col, a.row).line is not None
+        return False
+
+    ensures_callee = staticmethod(_nothing_more)
+
+    def effects(old, s, a, result):
+        if bool(a.button == 1):
+            _moved_effects(old, s, cur().ghost["moves"][-1], a.col, a.size[0])
+
+
+# ------------------------------------------------------------------------------------------------ Edit.keypress: up / down / home / end
+
+from contracts.C10_edit import valid_char_of  # noqa: E402
+from contracts.C11_width import ENC  # noqa: E402
+from contracts.proto_widget import COMMAND_MAP, command_of  # noqa: E402
+
+from urwid.command_map import Command  # noqa: E402
+
+KEY = TextShape("str", monotone_widths=False)
+
+
+def _is_key(key, word):
+    return text_eq(key, word)
+
+
+def _kp_requires(s, a):
+    """A key the command map binds to up / down / home (MAX_LEFT) / end (MAX_RIGHT) and that the editor does not take for
+    something else first: keypress() inserts printable keys, tab / enter when enabled, and handles 'backspace' /
+    'delete' before it looks at home / end."""
+    cmd = command_of(a.key)
+    vertical = either(cmd == Command.UP, cmd == Command.DOWN)
+    ends = both(either(cmd == Command.MAX_LEFT, cmd == Command.MAX_RIGHT), neg(_is_key(a.key, "backspace")), neg(_is_key(a.key, "delete")))
+    return both(a.size[0] >= 1, tlen(a.key) >= 1, either(vertical, ends), neg(valid_char_of(s, a.key)),
+                neg(both(_is_key(a.key, "tab"), s.allow_tab)), neg(both(_is_key(a.key, "enter"), s.multiline)))
+
+
+_KP_OV = {ED + "Edit.set_edit_pos": set_edit_pos_geo}
+
+
+@contract(ED + "Edit.keypress", property=("C10", "C09"), alias="up-down-home-end", contract_overrides=_KP_OV, inline=(ED + "Edit.edit_pos",), globals_=ENC, **GEOKW)
+class keypress_layout_keys:
+    """The keys contracts/C10_edit.py leaves out: they go through the layout."""
+    params = dict(size=Tup(Int), key=KEY)
+    raises = ()
+    modifies = CACHE + ("_edit_pos", "highlight", "pref_col_maxcol", "_shift_view_to_cursor")
+    requires = staticmethod(_kp_requires)
+
+    def missing_field(ip, st, obj, name):
+        if name == "_command_map":
+            return COMMAND_MAP
+        return NotImplemented
+
+    def ensures(old, s, a, result):
+        st = cur()
+        maxcol = a.size[0]
+        cmd = command_of(a.key)
+        cursors, moves = st.ghost.get("cursors", []), st.ghost.get("moves", [])
+        yield "cursor-asked-then-one-move", both(len(cursors) >= 1, len(moves) == 1)
+        if not cursors or len(moves) != 1:
+            return
+        cu, m = cursors[0], moves[0]
+        c = cu.cell
+        mine = CellOf(shown(old), Lay(old, maxcol), cursor_index(old), c.x, c.y, c.wj, c.held)
+        for label, f in mine.clauses():
+            yield "cursor-cell/" + label, f
+        for label, f in Cursor(mine, maxcol, cu.xy).facts():
+            yield label, f
+        def before_the_move(**changed):
+            """the widget as move_cursor_to_coords found it: the selection forgotten, the view following the cursor"""
+            v = View(dict(old.fields, highlight=None, _shift_view_to_cursor=True, **changed))
+            v.fields = dict(v._d)
+            return v
+
+        if bool(either(cmd == Command.UP, cmd == Command.DOWN)):
+            up = bool(cmd == Command.UP)
+            target = cu.xy[1] - 1 if up else cu.xy[1] + 1
+            pref, then = old.pref_col_maxcol
+            remembered = both(neg(opt_isnone(then)), val(then) == maxcol)
+            col = pref if bool(remembered) else cu.xy[0]
+            what = "up" if up else "down"
+            yield what + "/moves-to-the-line-above-or-below-the-reported-cursor-at-the-remembered-column-else-the-cursor-column", both(m.y == target, pref_is(m.x, col))
+            if m.line is None:
+                yield what + "/no-such-line/key-comes-back-unhandled", result is a.key
+            else:
+                yield what + "/line-exists/handled", result is None
+            for label, f in moved_clauses(before_the_move(), s, maxcol, m.x, target, m.line is not None, m):
+                yield what + "/" + label, f
+        else:
+            home = bool(cmd == Command.MAX_LEFT)
+            what = "home" if home else "end"
+            yield what + "/handled", result is None
+            yield what + "/moves-to-the-left-or-right-end-of-the-line-of-the-reported-cursor", both(m.y == cu.xy[1], pref_is(m.x, "left" if home else "right"))
+            for label, f in moved_clauses(before_the_move(pref_col_maxcol=(None, None)), s, maxcol, m.x, cu.xy[1], m.line is not None, m):
+                yield what + "/" + label, f
+        yield "view-follows-the-cursor-from-now-on", eq(s._shift_view_to_cursor, True)
